@@ -11,6 +11,7 @@ import (
 	"github.com/jf-tech/omniparser/transformctx"
 
 	"verif/mc/core"
+	"verif/mc/gen"
 	"verif/mc/hx"
 )
 
@@ -243,7 +244,7 @@ func init() {
 	core.Register(&core.Prop{
 		ID:    "C17",
 		Level: "exploration",
-		Rule:  "for every format item x separator x periodic outcome pattern over {pass, filtered-out, transform-fails} x driver {Transform loop, FormatReader without Release}: prefix (sep record)^k suffix with k cycles; for every delivered record the tree reachable from its root is measured (node count, structure hash) and must be periodic with the pattern period after a 2-period warm-up (a lasso in the retained-state graph, which bounds the size for every k); distinct by (item, separator, pattern, driver)",
+		Rule:  "for every format item x separator x periodic outcome pattern over {pass, filtered-out, transform-fails} (quick: 14 words; thorough: every word of length <= 5 with a delivered record) x driver {Transform loop, FormatReader without Release}: prefix (sep record)^k suffix with k cycles; for every delivered record the tree reachable from its root is measured (node count, structure hash) and must be periodic with the pattern period after a 2-period warm-up (a lasso in the retained-state graph, which bounds the size for every k); distinct by (item, separator, pattern, driver)",
 		Assumptions: []string{
 			"readers are deterministic functions of their retained state and the remaining input, so a repeated retained-tree signature at the same phase of a periodic input repeats forever",
 			"non-target declarations that themselves repeat without bound (e.g. repeated global envelopes) are outside the property ('a fixed set of ancestors')",
@@ -253,10 +254,25 @@ func init() {
 			if !c.Quick() {
 				cycles = 96
 			}
+			patterns := c17Patterns
+			if !c.Quick() {
+				// every outcome word of length <= 5 over {P, F, T} that delivers at least one record
+				patterns = nil
+				gen.Sequences(3, 5, func(seq []int) bool {
+					w := ""
+					for _, s := range seq {
+						w += string("PFT"[s])
+					}
+					if strings.Contains(w, "P") {
+						patterns = append(patterns, w)
+					}
+					return true
+				})
+			}
 			idx := 0
 			for _, f := range c17Formats() {
 				for sep := range f.Seps {
-					for _, pat := range c17Patterns {
+					for _, pat := range patterns {
 						for _, drv := range []string{"transform", "reader-norelease"} {
 							idx++
 							if !c.Mine(idx) {
